@@ -124,6 +124,9 @@ func init() {
 			{Name: "meshConn.CloseWrite returns the send result without recording the half-close", ExpectRule: "C18.R3", ExpectKey: "CloseWrite", Edits: []Edit{
 				{File: agt, Old: "\tif err := c.agent.peerMgr.SendToPeer(c.peerID, frame); err != nil {\n\t\treturn err\n\t}\n\n\t// Update local stream state\n\tc.stream.CloseWrite()\n\treturn nil\n", New: "\tsendErr := c.agent.peerMgr.SendToPeer(c.peerID, frame)\n\tif sendErr != nil {\n\t\tc.stream.CloseWrite()\n\t}\n\treturn sendErr\n"},
 			}},
+			{Name: "shared removal step selected by either endpoint", ExpectRule: "C18.R6", ExpectKey: "PopMatchingPeer", Edits: []Edit{
+				{File: rlt, Old: "\tif up := r.byUpstream[streamID]; up != nil && up.UpstreamPeer == peer {\n\t\tdelete(r.byUpstream, up.UpstreamID)\n\t\tdelete(r.byDownstream, up.DownstreamID)\n\t\treturn up, true\n\t}\n\tif down := r.byDownstream[streamID]; down != nil && down.DownstreamPeer == peer {\n\t\tdelete(r.byUpstream, down.UpstreamID)\n\t\tdelete(r.byDownstream, down.DownstreamID)\n\t\treturn down, false\n\t}\n\treturn nil, false\n", New: "\tif up := r.byUpstream[streamID]; up != nil && up.UpstreamPeer == peer {\n\t\tentry, fromUpstream = up, true\n\t} else if down := r.byDownstream[streamID]; down != nil && (down.DownstreamPeer == peer || down.UpstreamPeer == peer) {\n\t\tentry, fromUpstream = down, false\n\t}\n\tif entry != nil {\n\t\tdelete(r.byUpstream, entry.UpstreamID)\n\t\tdelete(r.byDownstream, entry.DownstreamID)\n\t}\n\treturn entry, fromUpstream\n"},
+			}},
 			// behaviour-preserving rewrites
 			{Name: "rewrite: CanWrite as a switch", Edits: []Edit{
 				{File: mgr, Old: "\tstate := s.State()\n\treturn state == StateOpen || state == StateHalfClosedRemote\n", New: "\tswitch s.State() {\n\tcase StateOpen, StateHalfClosedRemote:\n\t\treturn true\n\t}\n\treturn false\n"},
@@ -154,6 +157,9 @@ func init() {
 			}},
 			{Name: "rewrite: relay pop with one variable and side-correct checks", Edits: []Edit{
 				{File: rlt, Old: "\tif up := r.byUpstream[streamID]; up != nil && up.UpstreamPeer == peer {\n\t\tdelete(r.byUpstream, up.UpstreamID)\n\t\tdelete(r.byDownstream, up.DownstreamID)\n\t\treturn up, true\n\t}\n\tif down := r.byDownstream[streamID]; down != nil && down.DownstreamPeer == peer {\n\t\tdelete(r.byUpstream, down.UpstreamID)\n\t\tdelete(r.byDownstream, down.DownstreamID)\n\t\treturn down, false\n\t}\n\treturn nil, false\n", New: "\tentry, fromUpstream = r.byUpstream[streamID], true\n\tif entry == nil || entry.UpstreamPeer != peer {\n\t\tentry, fromUpstream = r.byDownstream[streamID], false\n\t\tif entry == nil || entry.DownstreamPeer != peer {\n\t\t\treturn nil, false\n\t\t}\n\t}\n\tdelete(r.byUpstream, entry.UpstreamID)\n\tdelete(r.byDownstream, entry.DownstreamID)\n\treturn entry, fromUpstream\n"},
+			}},
+			{Name: "rewrite: relay pop selects the entry first and removes it in one shared step", Edits: []Edit{
+				{File: rlt, Old: "\tif up := r.byUpstream[streamID]; up != nil && up.UpstreamPeer == peer {\n\t\tdelete(r.byUpstream, up.UpstreamID)\n\t\tdelete(r.byDownstream, up.DownstreamID)\n\t\treturn up, true\n\t}\n\tif down := r.byDownstream[streamID]; down != nil && down.DownstreamPeer == peer {\n\t\tdelete(r.byUpstream, down.UpstreamID)\n\t\tdelete(r.byDownstream, down.DownstreamID)\n\t\treturn down, false\n\t}\n\treturn nil, false\n", New: "\tif up := r.byUpstream[streamID]; up != nil && up.UpstreamPeer == peer {\n\t\tentry, fromUpstream = up, true\n\t} else if down := r.byDownstream[streamID]; down != nil && down.DownstreamPeer == peer {\n\t\tentry, fromUpstream = down, false\n\t}\n\tif entry != nil {\n\t\tdelete(r.byUpstream, entry.UpstreamID)\n\t\tdelete(r.byDownstream, entry.DownstreamID)\n\t}\n\treturn entry, fromUpstream\n"},
 			}},
 			{Name: "rewrite: Read drains through tryDequeue / dequeueOrEOF (EOF returned by a helper)", Edits: []Edit{
 				{File: mgr, Old: "\tcase <-s.closed:\n\t\t// Stream closed - drain any remaining buffered data first\n\t\tselect {\n\t\tcase data := <-s.readBuffer:\n\t\t\treturn data, nil\n\t\tdefault:\n\t\t\treturn nil, io.EOF\n\t\t}\n\tcase <-s.remoteFinCh:\n\t\t// Remote half-closed - drain buffered data then return EOF\n\t\tselect {\n\t\tcase data := <-s.readBuffer:\n\t\t\treturn data, nil\n\t\tdefault:\n\t\t\treturn nil, io.EOF\n\t\t}\n\tcase data := <-s.readBuffer:\n\t\treturn data, nil\n\t}\n}", New: "\tcase <-s.closed:\n\t\treturn s.dequeueOrEOF()\n\tcase <-s.remoteFinCh:\n\t\treturn s.dequeueOrEOF()\n\tcase chunk := <-s.readBuffer:\n\t\treturn chunk, nil\n\t}\n}\n\nfunc (s *Stream) tryDequeue() ([]byte, bool) {\n\tselect {\n\tcase chunk := <-s.readBuffer:\n\t\treturn chunk, true\n\tdefault:\n\t\treturn nil, false\n\t}\n}\n\nfunc (s *Stream) dequeueOrEOF() ([]byte, error) {\n\tif chunk, ok := s.tryDequeue(); ok {\n\t\treturn chunk, nil\n\t}\n\treturn nil, io.EOF\n}"},
